@@ -20,6 +20,7 @@ structure Var where
   data : Arr Cell
   attrs : List String        -- attribute names (values are carried opaquely by the real code)
   masked : Bool              -- masked-array variable?
+  isInt : Bool := false      -- integer dtype (results are cast on assignment)
 deriving Repr
 
 structure File where
@@ -100,6 +101,113 @@ def sliceFile (f : File) (sels : List (String × PSel)) (newdim : String) : Exce
       vars' := vars' ++ [{ v with data := orth ss' v.data }]
   return { f with dims := dims', vars := vars' }
 
+/-! ### stack -/
+
+def concatAll (k : Nat) : List (Arr Cell) → Arr Cell
+  | [] => Arr.node []
+  | [a] => a
+  | a :: b :: rest => Arr.concat k a (concatAll k (b :: rest))
+
+/-- `fs[0].stack(fs[1:], stackdim)` -/
+def stackFiles (fs : List File) (sd : String) : Except String File := do
+  match fs with
+  | [] => throw "IndexError"
+  | f0 :: _ =>
+    -- shared dimensions: same length in every file (every file must have them)
+    let mut shared : List Dim := []
+    for d in f0.dims do
+      if d.name != sd then
+        for g in fs do
+          if (g.dim? d.name).isNone then throw "KeyError"
+        if fs.all (fun g => g.dimLen d.name == d.len) then shared := shared ++ [d]
+    -- every other dimension of every file must be the stack dimension
+    for g in fs do
+      for d in g.dims do
+        if d.name != sd ∧ !(shared.any (·.name == d.name)) then throw "AssertionError"
+    for g in fs do
+      if (g.dim? sd).isNone then throw "KeyError"
+    let total := (fs.map (·.dimLen sd)).foldl (· + ·) 0
+    let sdim : Dim := { name := sd, len := total, unlim := ((f0.dim? sd).map (·.unlim)).getD false }
+    let mut vars : List Var := []
+    for g in fs do
+      for v in g.vars do
+        if vars.any (·.name == v.name) then continue
+        if !(v.dims.contains sd) then
+          vars := vars ++ [v]
+        else
+          let k := v.dims.idxOf sd
+          let mut parts : List (Arr Cell) := []
+          for h in fs do
+            match h.var? v.name with
+            | some w => parts := parts ++ [w.data]
+            | none => throw "KeyError"
+          vars := vars ++ [{ v with data := concatAll k parts }]
+    return { dims := shared ++ [sdim], vars := vars, attrs := f0.attrs }
+
+/-! ### apply along dimensions -/
+
+/-- the 1-D functions exercised: named reducers (array methods with keepdims) and callables -/
+inductive Fn where
+  | mean | sum | min | max | var          -- reducers → length 1
+  | diff | sub2 | cumsum | rev | conv2    -- np.diff, x[::2], np.cumsum, x[::-1], np.convolve(x,[1,1],'valid')
+deriving Repr, DecidableEq
+
+def unmasked (l : List Cell) : List Rat := l.filterMap id
+
+def rsum (l : List Rat) : Rat := l.foldl (· + ·) 0
+
+/-- the function on a 1-D list of cells, with numpy.ma semantics for masked cells -/
+def Fn.apply (fn : Fn) (l : List Cell) : List Cell :=
+  let u := unmasked l
+  match fn with
+  | .sum => [if u.isEmpty ∧ !l.isEmpty then none else some (rsum u)]
+  | .mean => [if u.isEmpty then none else some (rsum u / (u.length : Nat))]
+  | .min => [match u with | [] => none | a :: r => some (r.foldl (fun x y => if y < x then y else x) a)]
+  | .max => [match u with | [] => none | a :: r => some (r.foldl (fun x y => if y > x then y else x) a)]
+  | .var => [if u.isEmpty then none else
+      let m := rsum u / (u.length : Nat)
+      some (rsum (u.map (fun x => (x - m) * (x - m))) / (u.length : Nat))]
+  | .diff => List.zipWith (fun a b => match a, b with | some x, some y => some (y - x) | _, _ => none) l (l.drop 1)
+  | .sub2 => (List.range ((l.length + 1) / 2)).filterMap (fun i => l[2 * i]?)
+  | .rev => l.reverse
+  | .cumsum =>
+    let rec go (acc : Rat) : List Cell → List Cell
+      | [] => []
+      | none :: r => none :: go acc r
+      | some x :: r => some (acc + x) :: go (acc + x) r
+    go 0 l
+  | .conv2 => List.zipWith (fun a b => match a, b with | some x, some y => some (x + y) | _, _ => none) l (l.drop 1)
+
+def trunc0 (q : Rat) : Rat := ((Int.tdiv q.num q.den : Int) : Rat)
+
+def fnOf (fns : List (String × Fn)) (k : String) : Option Fn := (fns.find? (·.1 == k)).map (·.2)
+
+/-- one axis of one variable: apply the function named for that dimension (if any) -/
+def applyAxis (fns : List (String × Fn)) (dims : List String) (acc : Arr Cell × List Nat) (ax : Nat) :
+    Arr Cell × List Nat :=
+  match fnOf fns (dims.getD ax "") with
+  | some fn =>
+    (mapFibers fn.apply acc.2 ax acc.1,
+     acc.2.set ax (fn.apply ((List.range (acc.2.getD ax 0)).map (fun _ => some 0))).length)
+  | none => acc
+
+/-- data of one variable after `applyAlongDimensions`: axes are processed last to first; integer
+variables receive the result through a C cast -/
+def applyVar (f : File) (fns : List (String × Fn)) (v : Var) : Var :=
+  let axes := (List.range v.dims.length).reverse
+  let d := (axes.foldl (applyAxis fns v.dims) (v.data, f.shapeOf v)).1
+  let touched := v.dims.any (fun k => (fnOf fns k).isSome)
+  { v with data := if v.isInt ∧ touched then Arr.mapCells (fun c => c.map trunc0) d else d }
+
+/-- `applyAlongDimensions(**{dim: fn})` -/
+def applyFile (f : File) (fns : List (String × Fn)) : Except String File :=
+  if fns.any (fun p => (f.dim? p.1).isNone) then .error "KeyError" else
+  -- new length: the function applied to the coordinate variable (or arange)
+  let newLen (d : Dim) : Nat := match fnOf fns d.name with
+    | some fn => (fn.apply ((List.range d.len).map (fun i => some ((i : Nat) : Rat)))).length
+    | none => d.len
+  .ok { f with dims := f.dims.map (fun d => { d with len := newLen d }), vars := f.vars.map (applyVar f fns) }
+
 /-! ### wire format -/
 open Wire
 
@@ -125,7 +233,7 @@ def parseVar (dims : List Dim) (s : String) : Option Var :=
     let dn := parseNames ds
     let shape := dn.map (fun k => ((dims.find? (·.name == k)).map (·.len)).getD 0)
     match parseList parseCell cells with
-    | some cs => some ⟨n, dn, unflatten none shape cs, parseNames ats, fl == "m"⟩
+    | some cs => some ⟨n, dn, unflatten none shape cs, parseNames ats, fl.contains 'm', fl.contains 'i'⟩
     | none => none
   | _ => none
 
@@ -176,6 +284,42 @@ def runC02 : List String → String
     match parseFile d v a, parseSels sels with
     | some f, some ss => showRes (sliceFile f ss newdim)
     | _, _ => "err parse"
+  | _ => "err bad-op"
+
+def parseFn : String → Option Fn
+  | "mean" => some .mean | "sum" => some .sum | "min" => some .min | "max" => some .max | "var" => some .var
+  | "diff" => some .diff | "sub2" => some .sub2 | "cumsum" => some .cumsum | "rev" => some .rev
+  | "conv2" => some .conv2 | _ => none
+
+def parseFns (s : String) : Option (List (String × Fn)) :=
+  if s = "-" then some [] else
+  (s.splitOn ";").mapM (fun t => match t.splitOn "=" with
+    | [k, v] => (parseFn v).map (fun p => (k, p))
+    | _ => none)
+
+def runC03 : List String → String
+  | ["apply", d, v, a, fns] =>
+    match parseFile d v a, parseFns fns with
+    | some f, some ff => showRes (applyFile f ff)
+    | _, _ => "err parse"
+  | _ => "err bad-op"
+
+/-- several files: `n d1 v1 a1 d2 v2 a2 … stackdim` -/
+def parseFiles : Nat → List String → Option (List File × List String)
+  | 0, rest => some ([], rest)
+  | n + 1, d :: v :: a :: rest =>
+    match parseFile d v a, parseFiles n rest with
+    | some f, some (fs, r) => some (f :: fs, r)
+    | _, _ => none
+  | _, _ => none
+
+def runC04 : List String → String
+  | "stack" :: n :: rest =>
+    match parseNat n with
+    | some k => match parseFiles k rest with
+      | some (fs, [sd]) => showRes (stackFiles fs sd)
+      | _ => "err parse"
+    | none => "err parse"
   | _ => "err bad-op"
 
 end PFile
